@@ -114,7 +114,7 @@ def eval_pair(case):
 
 EVALUATORS = {"pair": eval_pair}
 
-HOSTS_Q = ["lemonde.fr", "www.lemonde.fr", "a.www.lemonde.fr", "lemonde.fr.evil.com", "evil.com", "fr.evil.com",
+HOSTS_Q = ["fr.lemonde.fr", "co.uk.bbc.co.uk", "com.evil.com", "lemonde.fr", "www.lemonde.fr", "a.www.lemonde.fr", "lemonde.fr.evil.com", "evil.com", "fr.evil.com",
            "bbc.co.uk", "news.bbc.co.uk", "co.uk", "uk", "kawasaki.jp", "x.kawasaki.jp", "a.x.kawasaki.jp",
            "city.kawasaki.jp", "foo.unknowntld", "fr"]
 HOSTS_T = HOSTS_Q + ["b.a.x.kawasaki.jp", "a.city.kawasaki.jp", "jp", "com", "xlemonde.fr", "lemonde.frx", "monde.fr",
